@@ -204,7 +204,8 @@ Theorem C14_source_cs_read_any_schedule : forall rf rp fo po k m h c tail, wf_cs
   exists f0, forall f, (f0 <= f)%nat -> exists st fin,
     callC prog_env f prog_sbdf_cs_read [VPtr rf fo; VPtr rp po] m k (enc_cs false c ++ tail) h = OReturn (VInt st) fin /\
     ((st = SBDF_OK /\ Imp.lookup strm_var (vars fin) = Some (VBytes tail) /\ Imp.lookup "*out" (vars fin) = Some (VCell (List.length h) 0)) \/
-     (st < 0 /\ Imp.lookup "*out" (vars fin) = Some VUndef /\ exists j, Imp.lookup cells_var (vars fin) = Some (VHeap (h ++ nones j)))).
+     (st < 0 /\ Imp.lookup "*out" (vars fin) = Some VUndef /\ exists j, Imp.lookup cells_var (vars fin) = Some (VHeap (h ++ nones j)))) /\
+    (k < 0 -> st = SBDF_OK).
 Proof.
   intros rf rp fo po k m h c tail (Wv & Bv & _ & _) Hp Hne Hb.
   assert (ESX : enc_cs false c ++ tail = [223; 91; SBDF_COLUMNSLICE_SECTIONID] ++ (enc_va false (csvals c) ++ enc32 false 0 ++ tail)).
@@ -219,7 +220,9 @@ Proof.
                  Va.va_read false None s1 = Ok (va, s2) -> read_int32 false s2 = Ok (v, s3) -> v <= 0).
   { intros s1 va s2 v s3 E A R. rewrite E0 in E. assert (Y : s1 = enc_va false (csvals c) ++ enc32 false 0 ++ tail) by congruence. subst s1. rewrite (EV (enc32 false 0 ++ tail)) in A. assert (Y : s2 = enc32 false 0 ++ tail) by congruence. subst s2. rewrite (E32 tail) in R. assert (v = 0) by congruence. lia. }
   destruct (cs_read_source rf rp fo po k _ m h Hb NB CNT) as (f0 & F). exists f0. intros f Hf.
-  destruct (F f Hf) as (st & fin & C & _ & Out). exists st, fin. split; [exact C|].
+  destruct (F f Hf) as (st & fin & C & _ & Out & MOK). exists st, fin. split; [exact C|].
+  split; [|intros Hk; apply (MOK Hk); exists (enc_va false (csvals c) ++ enc32 false 0 ++ tail), (csvals c), (enc32 false 0 ++ tail), tail;
+           split; [apply E0|split; [apply (EV (enc32 false 0 ++ tail))|apply (E32 tail)]]].
   destruct Out as [(E & Ho & (s1 & va & s2 & s3 & A1 & A2 & A3 & A4) & _)|(Hn & Ho & Hj)]; [|right; split; [exact Hn|split; [exact Ho|exact Hj]]].
   left. split; [exact E|]. split; [|exact Ho].
   rewrite E0 in A1. assert (Y : s1 = enc_va false (csvals c) ++ enc32 false 0 ++ tail) by congruence. subst s1. rewrite (EV (enc32 false 0 ++ tail)) in A2. assert (Y : s2 = enc32 false 0 ++ tail) by congruence. subst s2. rewrite (E32 tail) in A3. assert (Y : s3 = tail) by congruence. subst s3. exact A4.
